@@ -325,6 +325,10 @@ func s4Copy() []BashCase {
 		}
 		extra["negative-and-zero-ints"] = []Stmt{def("src", SliceLit{TInt, ie}), VarDecl{Names: []string{"dst"}, Type: TSliceInt}, pr(Copy{"dst", vr("src")}), For{Kind: ForRange, RangeIdx: "i", RangeVal: "v", Over: vr("dst"), Body: []Stmt{pr(vr("i"), vr("v"), cmp("==", vr("v"), Index{"src", vr("i")}))}}}
 	}
+	// a function's local slice and a global of the same name defined after the function (the function does not see it)
+	extra["local-dst-and-later-global-of-same-name"] = []Stmt{fn("fill", nil, []Type{TInt}, def("buf", SliceLit{TInt, []Expr{il(0), il(0)}}), def("n", Copy{"buf", SliceLit{TInt, []Expr{il(7), il(8)}}}), ret(bin("+", bin("*", vr("n"), il(10)), Len{vr("buf")}))),
+		fn("grow", nil, []Type{TInt}, def("buf", SliceLit{TString, nil}), SliceSet{"buf", il(2), sl("x")}, ret(Len{vr("buf")})),
+		def("buf", SliceLit{TInt, []Expr{il(1), il(2), il(3), il(4)}}), pr(call("fill"), call("grow"), Len{vr("buf")}, Index{"buf", il(0)}), pr(call("fill"), Len{vr("buf")})}
 	// several builtin results in one statement: each value is the one its own operand yields
 	extra["multi-value/copy-and-len"] = []Stmt{def("buffer", SliceLit{TInt, []Expr{il(0), il(0), il(0)}}), def("batch", SliceLit{TInt, []Expr{il(4), il(5), il(6)}}), VarDecl{Names: []string{"log"}, Type: TSliceString}, forUp("i", 12, SliceSet{"log", vr("i"), sl("e")}),
 		VarDecl{Names: []string{"copied", "entries"}, Short: true, Values: []Expr{Copy{"buffer", vr("batch")}, Len{vr("log")}}}, pr(vr("copied"), vr("entries")),
